@@ -58,7 +58,7 @@ package sqlite
 //@ ensures err != nil ==> result == nil
 
 //@ func (*SqliteStoreWorker).createCallback
-//@ props C16 C17 C05 C02 C20
+//@ props C16 C17 C05 C02 C20 C06
 //@ records handler
 //@ nopanic C13
 //@ ghostdb store
